@@ -52,6 +52,7 @@ SAME = [
     ("chained compare", "def f(a, x, b):\n    return a <= x and x <= b", "def f(a, x, b):\n    return a <= x <= b"),
     ("not eq", "def f(a, b):\n    return not a == b", "def f(a, b):\n    return a != b"),
     ("slice call", "def f(v, a, b):\n    s = slice(a, b)\n    return v[s]", "def f(v, a, b):\n    return v[a:b]"),
+    ("hoisted pairs", "def f(xs, t):\n    out = []\n    for x in xs:\n        out.append(t - g(x))\n    return out", "def f(xs, t):\n    ends = {x: g(x) for x in xs}\n    out = []\n    for x, e in ends.items():\n        out.append(t - e)\n    return out"),
     ("dict items", "def f(d):\n    return [d[k].x for k, v in d.items()]", "def f(d):\n    return [v.x for k, v in d.items()]"),
     ("continue vs nested if", "def f(xs):\n    out = []\n    for x in xs:\n        if x < 0:\n            continue\n        out.append(x)\n    return out", "def f(xs):\n    out = []\n    for x in xs:\n        if not x < 0:\n            out.append(x)\n    return out"),
     ("callee chosen ahead", "def f(c, a):\n    if c:\n        return g(a)\n    return h(a)", "def f(c, a):\n    k = g if c else h\n    return k(a)"),
